@@ -71,11 +71,13 @@ impl<'a> Streams<'a> {
 
         let x = self.state.next_reported_remote[dir as usize];
         self.state.next_reported_remote[dir as usize] = x + 1;
-        if dir == Dir::Bi {
+        let id = StreamId::new(!self.state.side, dir, x);
+        // The send half may already be gone if it was reset before the stream was accepted
+        if dir == Dir::Bi && self.state.send.contains_key(&id) {
             self.state.send_streams += 1;
         }
 
-        Some(StreamId::new(!self.state.side, dir, x))
+        Some(id)
     }
 
     #[cfg(fuzzing)]
